@@ -38,13 +38,13 @@ for _f, _path, _st in _STATUS:
 # chain that combines them is stated in the bridge theorem `frame_parse_bridge` (read from the source, not regenerated).
 SPECS += [
     Spec(GROUP, "rcs380_frame_is_rsp", F, "Frame.__init__", [("data", BYTES)],
-         expr='data[0:3] == bytearray(b"\\x00\\x00\\xff")', note="cut: the test that selects the received-frame arm"),
+         expr='data[0:3] == bytearray(b"\\x00\\x00\\xff")', whole=True, note="cut: the test that selects the received-frame arm"),
     Spec(GROUP, "rcs380_frame_is_ack", F, "Frame.__init__", [("frame", BYTES)],
-         expr='frame == bytearray(b"\\x00\\x00\\xff\\x00\\xff\\x00")', note="cut: the test for `self._type = 'ack'`"),
+         expr='frame == bytearray(b"\\x00\\x00\\xff\\x00\\xff\\x00")', whole=True, note="cut: the test for `self._type = 'ack'`"),
     Spec(GROUP, "rcs380_frame_is_err", F, "Frame.__init__", [("frame", BYTES)],
-         expr='frame == bytearray(b"\\x00\\x00\\xFF\\xFF\\xFF")', note="cut: the test for `self._type = 'err'`"),
+         expr='frame == bytearray(b"\\x00\\x00\\xFF\\xFF\\xFF")', whole=True, note="cut: the test for `self._type = 'err'`"),
     Spec(GROUP, "rcs380_frame_is_data", F, "Frame.__init__", [("frame", BYTES)],
-         expr='frame[3:5] == bytearray(b"\\xff\\xff")', note="cut: the test for `self._type = 'data'`"),
+         expr='frame[3:5] == bytearray(b"\\xff\\xff")', whole=True, note="cut: the test for `self._type = 'data'`"),
     Spec(GROUP, "rcs380_frame_data", F, "Frame.__init__", [("frame", BYTES)], path=[(3, "body"), (2, "body")],
          stores=["self._data"], result=["self._data"],
          note="cut: inside `if self.type == 'data':` the payload extraction; result: the attribute `self._data`"),
@@ -52,10 +52,10 @@ SPECS += [
     # a starred argument - `logmsg.format(cmd_code+1, *rsp.data[0:2])`, IndexError for a one-octet payload - that the
     # translator refuses; the model `rcsRsp` has it)
     Spec(GROUP, "rcs380_rsp_code_ok", F, "Chipset.send_command", [("cmd_code", INT)], binds=[("rsp.data", "data", BYTES)],
-         expr="rsp.data[0] == 0xD7 and rsp.data[1] == cmd_code + 1",
+         expr="rsp.data[0] == 0xD7 and rsp.data[1] == cmd_code + 1", whole=True,
          note="cut: the test on the response code; `rsp.data` is the parameter `data`"),
     Spec(GROUP, "rcs380_rsp_payload", F, "Chipset.send_command", [], binds=[("rsp.data", "data", BYTES)],
-         expr="rsp.data[2:]", note="cut: the returned payload"),
+         expr="rsp.data[2:]", whole=True, note="cut: the returned payload"),
     # InCommRF / TgCommRF: communication status word of the response
     Spec(GROUP, "rcs380_in_comm_rf_check", F, "Chipset.in_comm_rf", [("data", BYTES)], stmts=(2, 4),
          excs={"CommunicationError": ("rcsComm", "rcs380_comm_err_init")},
@@ -143,5 +143,8 @@ MUTATIONS = [
     ("rcs380_in_comm_rf_check", "payload offset", "return data[5:] if data else None", "return data[4:] if data else None"),
     ("rcs380_tg_comm_rf_check", "status word position", "tuple(data[3:7]) != (0, 0, 0, 0)", "tuple(data[2:6]) != (0, 0, 0, 0)"),
     ("rcs380_tgt_result", "payload offset", "return data[7:] if data else None", "return data[6:] if data else None"),
+    ("rcs380_frame_is_ack", "ACK test gains an operand", 'if frame == bytearray(b"\\x00\\x00\\xff\\x00\\xff\\x00"):', 'if frame == bytearray(b"\\x00\\x00\\xff\\x00\\xff\\x00") or len(frame) == 6:'),
+    ("rcs380_frame_is_data", "data frame test gains an operand", 'elif frame[3:5] == bytearray(b"\\xff\\xff"):', 'elif frame[3:5] == bytearray(b"\\xff\\xff") or len(frame) > 8:'),
+    ("rcs380_rsp_code_ok", "response code test gains an operand", "if rsp.data[0] == 0xD7 and rsp.data[1] == cmd_code + 1:", "if (rsp.data[0] == 0xD7 and rsp.data[1] == cmd_code + 1) or len(rsp.data) > 2:"),
     ("rcs380_frame_build", "NEUTRAL modulus written as mask", "(256 - sum(frame[5:7])) % 256", "(256 - sum(frame[5:7])) & 255"),
 ]
